@@ -189,27 +189,40 @@ def job_heads(spec):
     import numpy as np
     from synapgrad.functional import BackwardFunction
     out = []
-    for n, heads in spec["configs"]:
+    for cfg in spec["configs"]:
+        n, heads, mode = (list(cfg) + ["plain"])[:3]
         b = Builder()
         trunk, d = b.chain(b.leaf, n)
         if trunk.ndim != 1:
             trunk = b.F.reshape(trunk, (3,))
         cs = [1.0 + 0.25 * i for i in range(heads)]
-        roots = [trunk * b.sg.tensor([c, c, c], dtype=np.float64) for c in cs]
+        if mode == "same_root":                    # the same root differentiated `heads` times (its own gradient survives each sweep)
+            cs = [cs[0]] * heads
+            r0 = trunk * b.sg.tensor([cs[0]] * 3, dtype=np.float64)
+            roots = [r0] * heads
+        else:
+            roots = [trunk * b.sg.tensor([c, c, c], dtype=np.float64) for c in cs]
+        if mode == "retain_grad":                  # an interior node of the shared trunk keeps its gradient between the sweeps
+            trunk.retain_grad()
+            if trunk._children and trunk._children[0].requires_grad and not trunk._children[0].is_leaf:
+                trunk._children[0].retain_grad()
+        import contextlib
+        ctx = sys.modules["synapgrad.tensor"].retain_grads if mode == "retain_grads" else contextlib.nullcontext
         calls = {}
         orig = BackwardFunction.__call__
 
         def counted(self):
             calls[id(self)] = calls.get(id(self), 0) + 1
             return orig(self)
-        res = {"trunk_ops": n, "heads": heads, "sweeps": []}
+        res = {"trunk_ops": n, "heads": heads, "mode": mode, "sweeps": []}
         BackwardFunction.__call__ = counted
         try:
             for r in roots:
                 fns = recorded_ops(r)
                 calls.clear()
                 try:
-                    r.backward(b.sg.tensor(np.ones(3), dtype=np.float64))
+                    with ctx():
+                        r.backward(b.sg.tensor(np.ones(3), dtype=np.float64))
                 except BaseException as e:
                     if isinstance(e, (KeyboardInterrupt, SystemExit)):
                         raise
